@@ -14,6 +14,27 @@ CHECKS = {
         design="6/C18"),
 }
 
+CHECKS["C01"] = dict(
+    text="Theorems (Coq): the evaluation strategy of DataRow.MatchFilter (negation handed down, And/Or swapped) equals the literal reading of the filter expression for every row, tree and nesting depth incl. double negation (structural induction on the nested filter type); for every dataset/config/request without Sort/Limit/Offset the response rows are exactly the rows of the selected available backends whose filter expressions are all true, each once, and total_count is their number; stored cells are returned unchanged. The executable model (request parser in both modes, typed comparison of all 17 operators on all column types, reference/virtual/optional/_lc column resolution over the schema regenerated from the code on every run) is tied to the code by a stream of generated datasets x filter trees evaluated through NewRequest/NewResponse/Buffer and compared inside Coq.",
+    note="Trusted: Coq kernel + vm_compute; gen translator (schema), harness (dataset generator, snapshot writer, response canonicaliser); own regex matcher for the generated RE2 subset (Go regexp is an oracle), case folding on ASCII+Latin-1, floats as 3-decimal fixed point. Requests outside the modelled fragment are counted as skipped in the evidence. Axioms: none.",
+    technique="Coq proof (induction over filter trees; refinement of the gather loop to a filter specification) + in-Coq differential correspondence over generated datasets and requests",
+    design="6/C01")
+CHECKS["C13"] = dict(
+    text="Theorems (Coq, all event histories by induction over an invariant): a backend is reported up only with data, cleared error and nothing failed since the last synchronisation; warning keeps data at most StaleBackendTimeout old; a failure after the stale timeout drops the data and lists the backend as failed; recovery clears the error; idle rate, first query wakes and refreshes; source rotation. The model transcribes periodicUpdate/setNextAddrFromErr/resetErrors/updateIdleStatus/ResumeFromIdle/GetDataStore; stream: a real Peer against scripted backends switched ok/refuse/garbage with explicitly shifted time, GET sites and data queries after every event.",
+    note="Trusted: Coq kernel + vm_compute; harness and scripted backend (vbackend.go); real timers are single-stepped (periodicUpdate called directly, timestamps shifted), HTTP/LMD-sub peers outside the model. Axioms: none.",
+    technique="Coq proof (invariant over event histories of the peer state machine) + in-Coq differential correspondence against a real Peer and scripted backends",
+    design="6/C13")
+CHECKS["C15"] = dict(
+    text="Theorems (Coq, all sessions of writes): per selected reachable backend the command log is exactly the received commands in order grouped per batch; at most once, or exactly one retry after a connection break; never sent to a down backend; a backend's rejection is returned to the client; bytes unchanged apart from trimmed whitespace; an accepted command schedules the refresh. Stream: a real lmd listener + real peers against scripted backends recording their command log, generated batches (arbitrary argument bytes, keep-alive mixes, Backends headers, peer states, accept/reject/drop).",
+    note="Trusted: Coq kernel + vm_compute; harness and scripted backend. Clients do not pipeline (a GET is the last request of a write: ParseRequests uses a fresh bufio.Reader per call) - stated assumption; goroutine scheduling among several failing backends, the 1 s polls and command timeout are driven, HTTP backends and cluster forwarding outside the model. Axioms: none.",
+    technique="Coq proof (induction over request batches / sessions) + in-Coq differential correspondence against a real listener and scripted backends",
+    design="6/C15")
+CHECKS["C20"] = dict(
+    text="Theorems (Coq, all sequences of configurations): the transcribed initializePeers/initializeListeners loops refine a per-object specification; unchanged definitions keep the same peer object and cache throughout; removed backends are gone from map and order; added are present; a changed definition gets a new object (distinct from every earlier one, empty cache) and the old one is stopped and never serves again; order follows the configuration; open listeners equal the configured set, unchanged ones are the same objects; reloading an equal configuration is the identity; invalid configurations exit. Streams: the real mainLoop driven by TOML files and SIGHUP with GET sites through real unix clients after every step (pointer identity of peers/listeners recorded), plus a concurrent variant with clients querying during reloads.",
+    note="Trusted: Coq kernel + vm_compute; harness. 'Keeps serving throughout' is exercised by the concurrent stream (schedule dependent), not proved for the Go scheduler; backends are dead sockets (no synchronisation content). Axioms: none.",
+    technique="Coq proof (refinement of the reload loops to a specification, induction over reload histories) + in-Coq differential correspondence against the real main loop",
+    design="6/C20")
+
 NOT_APPLICABLE = {}
 
 
